@@ -25,12 +25,15 @@ import (
 // and, when the writer is a scheduled task, parks it right after - so the
 // reply can be delivered before the caller starts waiting for it.
 type ctlCodec struct {
-	name   string
-	sc     *sched
-	wire   *wireQueue // outgoing
-	inbox  chan []byte
-	closed chan struct{}
-	once   sync.Once
+	fmu      sync.Mutex
+	failResp map[string]bool // ids of responses whose (first) write fails with a transient error
+	failed   map[string]int
+	name     string
+	sc       *sched
+	wire     *wireQueue // outgoing
+	inbox    chan []byte
+	closed   chan struct{}
+	once     sync.Once
 }
 
 type wireQueue struct {
@@ -70,6 +73,20 @@ func (c *ctlCodec) WriteMessage(m *jsonrpc2.Message) error {
 	case <-c.closed:
 		return io.ErrClosedPipe
 	default:
+	}
+	if m.Request == nil {
+		c.fmu.Lock()
+		id := string(m.ID)
+		if c.failResp[id] {
+			delete(c.failResp, id)
+			if c.failed == nil {
+				c.failed = map[string]int{}
+			}
+			c.failed[id]++
+			c.fmu.Unlock()
+			return errors.New("transient write error (injected)")
+		}
+		c.fmu.Unlock()
 	}
 	c.wire.push(b)
 	c.sc.yield("sent")
@@ -125,6 +142,7 @@ type c14Caller struct {
 	result    string
 	err       error
 	done      bool
+	lostReply bool // the response to this call was dropped by an injected write error
 }
 
 func c14Case(rt *rapid.T, rec *vt.Rec) {
@@ -143,6 +161,11 @@ func c14Case(rt *rapid.T, rec *vt.Rec) {
 	}
 	ra := &jsonrpc2.Remote{Codec: ca, Server: srvA, Client: &jsonrpc2.Client{}}
 	rb := &jsonrpc2.Remote{Codec: cb, Server: srvB, Client: &jsonrpc2.Client{}, PendingLimit: 50, PendingDiscard: 10}
+	defaultClient := rapid.IntRange(0, 3).Draw(rt, "defaultClient") == 0
+	if defaultClient {
+		// a Remote may be built without a Client (client.go does); Call then provides one
+		ra.Client = nil
+	}
 	svcA.self, svcB.self = ra, rb
 	serveDone := make(chan struct{}, 2)
 	go func() { ra.Serve(); serveDone <- struct{}{} }()
@@ -175,6 +198,8 @@ func c14Case(rt *rapid.T, rec *vt.Rec) {
 	wait := sc.start(names, fns)
 	maxCancels := rapid.IntRange(0, 2).Draw(rt, "maxCancels")
 	cancels := 0
+	maxWriteFaults := rapid.IntRange(0, 1).Draw(rt, "maxWriteFaults")
+	writeFaults := 0
 	var trace []string
 	reordered, nestedSeen, earlyReply := false, false, false
 	failed := ""
@@ -227,6 +252,19 @@ func c14Case(rt *rapid.T, rec *vt.Rec) {
 				if sc.allDone() {
 					return
 				}
+				// a call whose reply was dropped by the injected write error can only end by cancellation
+				rescued := false
+				for i, c := range callers {
+					if c.lostReply && !c.cancelled && !sc.isDone(i) {
+						c.cancelled = true
+						c.cancel()
+						trace = append(trace, "cancel "+c.token+" (its reply was lost to the write error)")
+						rescued = true
+					}
+				}
+				if rescued {
+					continue
+				}
 				var stuck []string
 				for i, c := range callers {
 					if !sc.isDone(i) {
@@ -266,6 +304,30 @@ func c14Case(rt *rapid.T, rec *vt.Rec) {
 					for _, p := range parked {
 						if p.label == "sent" {
 							earlyReply = true
+						}
+					}
+				}
+				if what == "request" && writeFaults < maxWriteFaults {
+					// maybe the response to this request will hit a transient write error on the serving side
+					var args []json.RawMessage
+					json.Unmarshal(m.Params, &args)
+					var tok string
+					var depth int
+					if len(args) == 2 {
+						json.Unmarshal(args[0], &tok)
+						json.Unmarshal(args[1], &depth)
+					}
+					for _, cl := range callers {
+						if cl.token == tok && cl.depth == 0 && depth == 0 && rapid.IntRange(0, 2).Draw(rt, "failResponseWrite") == 0 {
+							dst.fmu.Lock()
+							if dst.failResp == nil {
+								dst.failResp = map[string]bool{}
+							}
+							dst.failResp[string(m.ID)] = true
+							dst.fmu.Unlock()
+							cl.lostReply = true
+							writeFaults++
+							trace = append(trace, "the response to "+tok+" will fail to be written once")
 						}
 					}
 				}
@@ -384,12 +446,12 @@ func c14Case(rt *rapid.T, rec *vt.Rec) {
 	if left := bubbleLeftovers(); len(left) > 0 {
 		rt.Fatalf("goroutines still blocked after both ends closed (a call or handler is wedged):\n%s\nschedule:\n  %s", strings.Join(left, "\n\n"), hist())
 	}
-	nontrivial := len(callers) >= 2 && (reordered || cancels > 0 || nestedSeen)
+	nontrivial := len(callers) >= 2 && (reordered || cancels > 0 || nestedSeen || writeFaults > 0)
 	var depths []int
 	for _, c := range callers {
 		depths = append(depths, c.depth)
 	}
-	rec.Case(fmt.Sprintf("ctl|%d|%d|%v|%v", nA, nB, depths, trace), nontrivial, []string{"ctl", fmt.Sprintf("ctl:cancels:%d", cancels), fmt.Sprintf("ctl:early-reply:%v", earlyReply), fmt.Sprintf("ctl:nested:%v", nestedSeen)}, func() interface{} {
+	rec.Case(fmt.Sprintf("ctl|%d|%d|%v|%v", nA, nB, depths, trace), nontrivial, []string{"ctl", fmt.Sprintf("ctl:cancels:%d", cancels), fmt.Sprintf("ctl:write-faults:%d", writeFaults), fmt.Sprintf("ctl:default-client:%v", defaultClient), fmt.Sprintf("ctl:early-reply:%v", earlyReply), fmt.Sprintf("ctl:nested:%v", nestedSeen)}, func() interface{} {
 		return map[string]interface{}{"kind": "controlled delivery", "callers_A": nA, "callers_B": nB, "depths": depths, "schedule": trace}
 	})
 }
